@@ -718,6 +718,33 @@ def do_replay(path):
         shutil.rmtree(scratch, ignore_errors=True)
 
 
+def do_replay_smoke(jobs):
+    """Build (not run) the native replay of every registered obligation with all-zero inputs: a replay that does not
+    link would turn a real counterexample into UNCONFIRMED."""
+    obs = load_obligations()
+    seen, todo = set(), []
+    for o in obs:
+        key = (o.harness, o.entry, tuple(o.defines), str(o.extra_src), o.shrink)
+        if key not in seen:
+            seen.add(key)
+            todo.append(o)
+    scratch = tempfile.mkdtemp(prefix="lbzip2-verif.")
+    bad = 0
+    try:
+        with cf.ThreadPoolExecutor(max_workers=jobs) as ex:
+            futs = {ex.submit(native_replay, o, "{ 0 }", scratch, "smoke-" + o.name): o for o in todo}
+            for f in cf.as_completed(futs):
+                o = futs[f]
+                v, out = f.result()
+                if v in ("build-failed", "replay-error"):
+                    bad += 1
+                    print("REPLAY-BUILD-FAILED %s: %s" % (o.name, out[-400:]))
+    finally:
+        shutil.rmtree(scratch, ignore_errors=True)
+    print("replay smoke: %d harness builds, %d failed" % (len(todo), bad))
+    return 1 if bad else 0
+
+
 def main():
     ap = argparse.ArgumentParser()
     ap.add_argument("prop", nargs="?")
@@ -727,9 +754,12 @@ def main():
     ap.add_argument("--keep", action="store_true")
     ap.add_argument("--replay")
     ap.add_argument("--list", action="store_true")
+    ap.add_argument("--replay-smoke", action="store_true")
     a = ap.parse_args()
     if a.replay:
         sys.exit(do_replay(a.replay))
+    if a.replay_smoke:
+        sys.exit(do_replay_smoke(a.jobs))
     if a.list:
         for o in load_obligations():
             print("%-30s %-22s %s" % (o.name, o.harness, o.props))
